@@ -5,6 +5,7 @@ import (
 	"regexp"
 	"sort"
 	"strings"
+	"sync/atomic"
 
 	"google.golang.org/grpc/codes"
 
@@ -108,13 +109,24 @@ func CheckC03(c Case, r Result) (*Violation, []string, bool) {
 			}
 		}
 	}
-	// complete delivery
+	// complete delivery (unless a stream write was failed on purpose: the stream is then re-created,
+	// which fails the calls pending on it - "when ... no connection fails")
+	injected := 0
+	for _, cl := range r.Clients {
+		injected += int(atomic.LoadInt32(&cl.SendsFailed))
+	}
+	if injected > 0 {
+		classes = append(classes, "injected-send-failure")
+	}
 	straggler := false
 	kinds := map[string]bool{}
 	for _, ci := range r.Calls {
 		kinds[ci.Kind] = true
 		for _, s := range ci.Targets {
 			k := fmt.Sprintf("%d/%d", s, ci.Idx)
+			if seen[k] == 0 && injected > 0 {
+				continue
+			}
 			if seen[k] == 0 {
 				return viol("C03/not-handled/"+strings.ToLower(ci.Kind), "server %d never handled call %d (%s) although no context was cancelled and no connection failed", s, ci.Idx, ci.Kind), classes, false
 			}
